@@ -118,11 +118,13 @@ static int do_N(struct lbuf *lb)
 static int do_E(struct lbuf *lb, int beg, int ndel, char *text)
 {
 	int n = hist[cur].n, i;
+	/* the line buffer is handed the range as the editor's callers pass it (it may reach beyond the last line, e.g. dd on
+	 * an empty buffer is lbuf_edit(lb, NULL, 0, 1)); the reference clamps */
+	lbuf_edit(lb, text, beg, beg + ndel);
 	if (beg > n)
 		beg = n;
 	if (beg + ndel > n)
 		ndel = n - beg;
-	lbuf_edit(lb, text, beg, beg + ndel);
 	if (ndel == 0 && !text)
 		return compare(lb);		/* documented no-op */
 	if (!open_grp) {
